@@ -294,6 +294,63 @@ func checkC16(c *Check) {
 	if found != 2 {
 		c.Undecided("outdir/writers", "repo", "", fmt.Sprintf("expected the 2 directory writers, found %d", found))
 	}
+	// the scan of the existing directory is total: every entry returned by ReadDir is recorded (a directory is appended
+	// and descended into, a file is put into the set) — the ownership test and the stale-file deletion both run off
+	// this scan, so an entry it skips is invisible to both
+	scans := 0
+	for _, fi := range funcs {
+		if fi.Obj.Name() != "collectRelativePaths" || fi.Decl.Body == nil {
+			continue
+		}
+		scans++
+		ir := buildFuncIR(fi, funcs, co.Fset)
+		name := strings.TrimPrefix(fi.Pkg.PkgPath, "github.com/VKCOM/tl/") + "." + fi.Name()
+		ok, detail := false, "no loop over the os.ReadDir result"
+		for _, n := range ir.Body {
+			lp, isL := n.(*LoopN)
+			if !isL || lp.Kind != "range" {
+				continue
+			}
+			// shape: [locals…] if entry.IsDir() { append dir; recurse; continue } ; set[rel] = true
+			skips, recorded, dirArm := 0, false, false
+			for i, st := range lp.Body {
+				switch st := st.(type) {
+				case *BranchN:
+					skips++
+				case *IfN:
+					if strings.HasSuffix(st.Cond.String(), ".IsDir()") && len(st.Else) == 0 {
+						app, rec := false, false
+						for _, t := range st.Then {
+							if cn, isC := t.(*CallN); isC {
+								if cn.Builtin == "append" {
+									app = true
+								}
+								if cn.Fn == fi.Obj && cn.ErrChecked {
+									rec = true
+								}
+							}
+						}
+						dirArm = app && rec
+					} else {
+						walkBlock(Block{st}, nil, func(x Node, _ []Guard) {
+							if _, isB := x.(*BranchN); isB {
+								skips++
+							}
+						})
+					}
+				case *AssignN:
+					if len(st.LHS) == 1 && len(st.RHS) == 1 && st.RHS[0] == "true" && strings.Contains(st.LHS[0], "[") && i == len(lp.Body)-1 {
+						recorded = true
+					}
+				}
+			}
+			ok = skips == 0 && recorded && dirArm
+			detail = fmt.Sprintf("directories appended and descended into: %v; files recorded by the last statement of the loop: %v; entries skipped by continue/break elsewhere: %d", dirArm, recorded, skips)
+		}
+		c.Ob("outdir/existing-directory-scan-is-total", name, ok, relPos(posStr(co.Fset, fi.Decl.Pos())), detail)
+	}
+	c.Floor("outdir/existing-directory-scan-is-total", 2)
+	_ = scans
 	c.Floor("fs-mutation-owner", 20)
 	c.Floor("outdir/no-mutation-before-marker-test", 8)
 	c.Floor("outdir/paths-inside-outdir", 8)
